@@ -365,6 +365,8 @@ def int_from_bytes(data, byteorder="big", *, signed=False):
 
 
 def int_to_bytes(x, length=1, byteorder="big", *, signed=False):
+    if hasattr(x, "__symx_to_bytes__"):
+        return x.__symx_to_bytes__(length, byteorder, signed)
     if isinstance(x, SInt):
         c = concrete_of(x)
         if c is not None:
